@@ -263,8 +263,9 @@ __CPROVER_ensures(0 <= _ret->second.n && _ret->second.n2 == 0)
 QXmppSaslClient *QXmppSaslClient_create(const SaslMechanism *mechanism, QObjectC *parent)
 __CPROVER_requires(gh_create_calls < 1000)
 __CPROVER_assigns(gh_create_calls, gh_create_arg, gh_created)
-__CPROVER_ensures(gh_create_calls == __CPROVER_old(gh_create_calls) + 1 && SaslMechanism_EQ(gh_create_arg, *mechanism) && gh_created == __CPROVER_return_value)
+/* (the clause that allocates the result comes first: later clauses speak about the allocated object) */
 __CPROVER_ensures(__CPROVER_return_value == NULL || (__CPROVER_is_fresh(__CPROVER_return_value, sizeof(QXmppSaslClient)) && SaslMechanism_EQ(__CPROVER_return_value->gh_mechanism, *mechanism) && SaslMechanism_VALID(__CPROVER_return_value->gh_mechanism)))
+__CPROVER_ensures(gh_create_calls == __CPROVER_old(gh_create_calls) + 1 && SaslMechanism_EQ(gh_create_arg, *mechanism) && gh_created == __CPROVER_return_value)
 ;
 void QXmppSaslClient_mechanism(const QXmppSaslClient *self, SaslMechanism *_ret)
 __CPROVER_requires(__CPROVER_is_fresh(_ret, sizeof(*_ret)))
@@ -306,10 +307,15 @@ __CPROVER_requires(__CPROVER_is_fresh(_ret, sizeof(*_ret)) && gh_init_calls < 10
 __CPROVER_assigns(*_ret, gh_init_calls, gh_init_cfg, gh_init_list, gh_init_result, gh_init_mech)
 __CPROVER_ensures(gh_init_calls == __CPROVER_old(gh_init_calls) + 1 && gh_init_cfg == config)
 __CPROVER_ensures(gh_init_list.n == availableMechanisms->n && gh_init_list.d == availableMechanisms->d && gh_init_list.n2 == availableMechanisms->n2 && gh_init_list.d2 == availableMechanisms->d2)
-__CPROVER_ensures(gh_init_result.saslClient == _ret->saslClient && gh_init_result.error.has == _ret->error.has && gh_init_result.error.v.first == _ret->error.v.first && gh_init_result.error.v.second.type == _ret->error.v.second.type && gh_init_result.error.v.second.text == _ret->error.v.second.text && gh_init_result.initialResponse == _ret->initialResponse)
 __CPROVER_ensures(_ret->error.has ? _ret->saslClient == NULL : (__CPROVER_is_fresh(_ret->saslClient, sizeof(QXmppSaslClient)) && SaslMechanism_VALID(_ret->saslClient->gh_mechanism) && SaslMechanism_EQ(gh_init_mech, _ret->saslClient->gh_mechanism) && gh_init_mech.index == _ret->saslClient->gh_mechanism.index))
+__CPROVER_ensures(gh_init_result.saslClient == _ret->saslClient && gh_init_result.error.has == _ret->error.has && gh_init_result.error.v.first == _ret->error.v.first && gh_init_result.error.v.second.type == _ret->error.v.second.type && gh_init_result.error.v.second.text == _ret->error.v.second.text && gh_init_result.initialResponse == _ret->initialResponse)
 ;
 '''
+
+
+def used(names, text):
+    """the callees of a replace list that the lowered text really calls (goto-instrument rejects a name that does not occur)"""
+    return [n for n in names if re.search(r'\b%s\(' % re.escape(n), text)]
 
 
 def build_c(work, tier, gen, info, proofs, typecheck, labelled, CLANG16):
@@ -348,8 +354,8 @@ void h_init(void) { OptSaslMechanism cr; gh_choose_result = cr; OptBid rr; gh_re
     typecheck(f)
     text += c
     p = Proof('initSaslAuthentication', f, 'h_init', enforce='initSaslAuthentication',
-              replace=['chooseMechanism', 'QXmppSaslClient_create', 'QXmppSaslClient_setHost', 'QXmppSaslClient_setServiceType', 'QXmppSaslClient_setUsername',
-                       'QXmppSaslClient_setCredentials', 'QXmppSaslClient_respond'],
+              replace=used(['chooseMechanism', 'QXmppSaslClient_create', 'QXmppSaslClient_setHost', 'QXmppSaslClient_setServiceType', 'QXmppSaslClient_setUsername',
+                            'QXmppSaslClient_setCredentials', 'QXmppSaslClient_respond', 'QXmppSaslClient_mechanism'], t_init + t_err),
               kind='complete', loop_contracts=False, include_dirs=[QT], timeout=600,
               note='loop-free; every answer of chooseMechanism, of the client factory (null or a client) and of the first respond()')
     proofs.append(labelled(p, 'initSaslAuthentication', sp_init))
@@ -361,7 +367,7 @@ void h_s2(void) { InitSaslAuthResult ir; gh_init_result = ir; SaslMechanism im; 
     f = bc.write('s2auth.c', c)
     typecheck(f)
     text += c
-    p = Proof('Sasl2Manager_authenticate', f, 'h_s2', enforce='Sasl2Manager_authenticate', replace=['initSaslAuthentication', 'QXmppSaslClient_mechanism'],
+    p = Proof('Sasl2Manager_authenticate', f, 'h_s2', enforce='Sasl2Manager_authenticate', replace=used(['initSaslAuthentication', 'QXmppSaslClient_mechanism'], t_s2),
               kind='complete', loop_contracts=False, include_dirs=[QT], timeout=600,
               note='loop-free; every stream feature (with / without FAST), every configuration (FAST enabled or not, user agent or not), every answer of initSaslAuthentication')
     proofs.append(labelled(p, 'Sasl2Manager_authenticate', sp_s2))
@@ -372,7 +378,7 @@ void h_s1(void) { InitSaslAuthResult ir; gh_init_result = ir; SaslMechanism im; 
     f = bc.write('s1auth.c', c)
     typecheck(f)
     text += c
-    p = Proof('SaslManager_authenticate', f, 'h_s1', enforce='SaslManager_authenticate', replace=['initSaslAuthentication', 'QXmppSaslClient_mechanism'],
+    p = Proof('SaslManager_authenticate', f, 'h_s1', enforce='SaslManager_authenticate', replace=used(['initSaslAuthentication', 'QXmppSaslClient_mechanism'], t_s1),
               kind='complete', loop_contracts=False, include_dirs=[QT], timeout=600, note='loop-free; every offered list, every answer of initSaslAuthentication')
     proofs.append(labelled(p, 'SaslManager_authenticate', sp_s1))
     return bc.functions, bc.dropped, bc.fired, text
